@@ -61,6 +61,8 @@ def cut_of(a, b):
     if isinstance(a, list) and isinstance(b, list) and a and b and a[0] == b[0]:
         if a[0] == "str" and len(a) == 2 and len(b) == 2:
             x, y = a[1].replace("-", ""), b[1].replace("-", "")
+            if x.endswith("efbfbd") and not y.startswith(x):
+                x = x[:-6]          # utf-8: the cut fell inside a multi-byte character, the lossy decoder shows U+FFFD for the torn bytes
             return None if y.startswith(x) else "string %s is not a prefix of %s" % (a[1], b[1])
         if a[0] == "seq":
             if len(a) > len(b):
